@@ -95,6 +95,16 @@ theorem add_rep (s : Loc → F) {x1 y1 x2 y2 : F} (h2 : (2 : F) ≠ 0)
   · rw [vx, vz, ha.hx, ha.hy, hb.hx, hb.hy]; exact cx
   · rw [vy, vz, ha.hx, ha.hy, hb.hx, hb.hy]; exact cy
 
+/-- The early exits that guard the main path, as the source states them now: `a` infinite → copy `b`;
+    `b` infinite → copy `a`; `h = u2 - u1 = 0` and `s2 - s1 = 0` (same point, whatever the Jacobian
+    representation, because the test is on the cross-multiplied values) → `Double`. A change of this decision
+    structure changes the extracted list and breaks this obligation. -/
+theorem add_guards : bn256_curve_Add_guards =
+    ["Add: IsInfinity(a)", "Add: IsInfinity(b)", "Add: local:complit_8 == local:complit_11",
+     "Add: local:complit_5 == local:complit_12"] := rfl
+theorem bn254_add_guards : bn254_curve_Add_guards = bn256_curve_Add_guards := rfl
+theorem double_guards : bn256_curve_Double_guards = [] ∧ bn254_curve_Double_guards = [] := ⟨rfl, rfl⟩
+
 /-- BN254 uses the same code. -/
 theorem bn254_add_same : bn254_curve_Add = bn256_curve_Add := rfl
 theorem bn254_double_same : bn254_curve_Double = bn256_curve_Double := rfl
